@@ -27,7 +27,8 @@ def mc(rep, name, consts, timeout=3000):
 def run(tier, rep):
     thorough = tier == "thorough"
     rep.assumptions += [
-        "units are single lines/segments matched by name (rows-based and header/footer multi-line units are specified in FlatLines / C06)",
+        "a non-group declaration takes one named unit, or (csv2 / fixedlength2 / scripted reader) two units of any name (rows = 2) or a "
+        "named header through the first footer unit 'Z'; column extraction inside multi-line records is FlatLines / C06",
         "EDI: the top-level declarations repeat while the first of them matches again (intended; repository test 'multiple root level segments, success')",
         "max = 0 is outside the property's quantifier and not generated",
     ]
@@ -38,8 +39,17 @@ def run(tier, rep):
     else:
         configs += [("N<=2,in<=3", dict(NMin=1, NMax=2, MaxIn=3, EmitMod=1))]
     ncase = 0
-    for edi in ("FALSE", "TRUE"):
-        for nm, c in configs:
+    shapes = '{"name", "rows2", "hf"}'
+    runs = [("FALSE", nm, c) for nm, c in configs] + [("TRUE", nm, c) for nm, c in configs]
+    # record shapes of csv2 / fixedlength2 (not EDI): the footer unit joins the alphabet and every leaf has 3 shapes,
+    # so the scope is N <= 2 (N = 3 does not finish in 20 min); measured: 373k / 1.27M / 1.89M states
+    if thorough:
+        runs += [("FALSE", "shapes,N<=2,in<=4,1name", dict(NMin=1, NMax=2, MaxIn=4, EmitMod=2, Shapes=shapes, Names='{"A"}')),
+                 ("FALSE", "shapes,N<=2,in<=3", dict(NMin=1, NMax=2, MaxIn=3, EmitMod=2, Shapes=shapes))]
+    else:
+        runs += [("FALSE", "shapes,N<=2,in<=3,1name", dict(NMin=1, NMax=2, MaxIn=3, EmitMod=1, Shapes=shapes, Names='{"A"}'))]
+    for edi, nm, c in runs:
+        if True:
             consts = dict(c, Edi=edi, EmitCases="TRUE")
             r = mc(rep, "MC_Hierarchy(%s,edi=%s)" % (nm, edi), {k: str(v) for k, v in consts.items()})
             if not r.cases:
